@@ -30,7 +30,7 @@ impl Date {
 		let mut days = ms_since_epoch / 86_400_000; // no leap seconds
 		let mut year = Year::new(1970);
 		while days >= year.number_of_days().into() {
-			year = year.next();
+			year = year.next()?;
 			days -= i64::from(year.number_of_days());
 		}
 		let mut month = Month::January;
@@ -74,30 +74,32 @@ impl Date {
 		}
 	}
 
-	pub(crate) fn next(self) -> Self {
-		if self.day.value() < Month::number_of_days(self.month, self.year) {
-			Self {
-				day: Day::new(self.day.value() + 1),
-				month: self.month,
-				year: self.year,
-			}
-		} else if self.month == Month::December {
-			Self {
-				day: Day::new(1),
-				month: Month::January,
-				year: self.year.next(),
-			}
-		} else {
-			Self {
-				day: Day::new(1),
-				month: self.month.next(),
-				year: self.year,
-			}
-		}
+	pub(crate) fn next(self) -> FResult<Self> {
+		Ok(
+			if self.day.value() < Month::number_of_days(self.month, self.year) {
+				Self {
+					day: Day::new(self.day.value() + 1),
+					month: self.month,
+					year: self.year,
+				}
+			} else if self.month == Month::December {
+				Self {
+					day: Day::new(1),
+					month: Month::January,
+					year: self.year.next()?,
+				}
+			} else {
+				Self {
+					day: Day::new(1),
+					month: self.month.next(),
+					year: self.year,
+				}
+			},
+		)
 	}
 
-	pub(crate) fn prev(self) -> Self {
-		if self.day.value() > 1 {
+	pub(crate) fn prev(self) -> FResult<Self> {
+		Ok(if self.day.value() > 1 {
 			Self {
 				day: Day::new(self.day.value() - 1),
 				month: self.month,
@@ -107,7 +109,7 @@ impl Date {
 			Self {
 				day: Day::new(31),
 				month: Month::December,
-				year: self.year.prev(),
+				year: self.year.prev()?,
 			}
 		} else {
 			let month = self.month.prev();
@@ -116,23 +118,23 @@ impl Date {
 				month,
 				year: self.year,
 			}
-		}
+		})
 	}
 
 	pub(crate) fn diff_months(self, mut months: i64) -> FResult<Self> {
 		let mut result = self;
 		while months >= 12 {
-			result.year = result.year.next();
+			result.year = result.year.next()?;
 			months -= 12;
 		}
 		while months <= -12 {
-			result.year = result.year.prev();
+			result.year = result.year.prev()?;
 			months += 12;
 		}
 		while months > 0 {
 			if result.month == Month::December {
 				result.month = Month::January;
-				result.year = result.year.next();
+				result.year = result.year.next()?;
 			} else {
 				result.month = result.month.next();
 			}
@@ -141,7 +143,7 @@ impl Date {
 		while months < 0 {
 			if result.month == Month::January {
 				result.month = Month::December;
-				result.year = result.year.prev();
+				result.year = result.year.prev()?;
 			} else {
 				result.month = result.month.prev();
 			}
@@ -153,7 +155,7 @@ impl Date {
 			let mut after = result;
 			if after.month == Month::December {
 				after.month = Month::January;
-				after.year = after.year.next();
+				after.year = after.year.next()?;
 			} else {
 				after.month = after.month.next();
 			}
@@ -202,7 +204,7 @@ impl Date {
 			let num_days = rhs.try_as_usize_unit(int)?;
 			let mut result = self;
 			for _ in 0..num_days {
-				result = result.next();
+				result = result.next()?;
 			}
 			Ok(Value::Date(result))
 		} else {
@@ -217,7 +219,7 @@ impl Date {
 			let num_days = rhs.try_as_usize_unit(int)?;
 			let mut result = self;
 			for _ in 0..num_days {
-				result = result.prev();
+				result = result.prev()?;
 			}
 			Ok(Value::Date(result))
 		} else if rhs.unit_equal_to("week", int)? {
@@ -225,7 +227,7 @@ impl Date {
 			let mut result = self;
 			for _ in 0..num_weeks {
 				for _ in 0..7 {
-					result = result.prev();
+					result = result.prev()?;
 				}
 			}
 			Ok(Value::Date(result))
